@@ -31,4 +31,22 @@ def replay(pid, path):
         print("REPRODUCED: %s" % json.dumps(hit, default=str))
         return 1
     print("no failing input found natively (%s)" % (hit,))
-    return 0
+    # no native witness: decide the recorded obligation again, deductively, on the current tree
+    from pyvc import driver
+    from . import REPO_DIR
+    fn = doc.get("function")
+    reports, clauses, _reach = driver.run(REPO_DIR, cfg.CONTRACT_MODULES, [fn], [], timeout_ms=60000)
+    st = {r["qualname"]: r["status"] for r in reports}
+    co = clauses.get(doc.get("obligation"))
+    if co is None:
+        print("UNDECIDED: the obligation is not generated on this tree (function status: %s)" % st.get(fn))
+        return 2
+    print("deductive tier on the current tree: %s is %s (%d VCs, back end %s)" % (doc.get("obligation"), co.status, co.vcs, "+".join(sorted(co.backends))))
+    if co.status == "discharged":
+        print("holds now")
+        return 0
+    if co.status == "refuted":
+        print("REPRODUCED (refuted by the solver): counter-model %s" % json.dumps(co.model, default=str)[:600])
+        return 1
+    print("UNDECIDED: solver gave no answer")
+    return 2
